@@ -3,6 +3,8 @@
 package kessoku
 
 import (
+	"go/ast"
+	"go/token"
 	"go/types"
 	"math"
 
@@ -309,4 +311,164 @@ func inv_findOptimalPool_minsize(n *node, pools [][]*node, maxProvidedPools []in
 	vs.Invariant("minimal_so_far", vs.Forall(kvcIdx, func(k int) bool {
 		return (!n.providerSpec.IsAsync && len(pools[maxProvidedPools[k]]) == 0) || minSize <= len(pools[maxProvidedPools[k]])
 	}))
+}
+
+// ---------------------------------------------------------------------------
+// Emitted code: meaning of the statement shapes (C01, C03, C06, C07, C08)
+//
+// The predicates below read the go/ast trees the generator builds. They are the
+// only place where a meaning is given to emitted Go text:
+//   <-c                                   plain wait on completion channel c
+//   select { case <-c: case <-ctx.Done(): K }   cancellable wait on c with continuation K
+//   for _, ch := range []<-chan struct{}{c1..cn} { W(ch) }   wait on each ci
+//   close(c) / for _, ch := range []chan<- struct{}{..} { close(ch) }   completion signal(s)
+// ---------------------------------------------------------------------------
+
+//kvc:inline isContextType
+
+func isIdentNamed(e ast.Expr, name string) bool {
+	return vs.TypeIs[*ast.Ident](e) && vs.As[*ast.Ident](e) != nil && vs.As[*ast.Ident](e).Name == name
+}
+
+func isSelectorCall(e ast.Expr, recv string, method string) bool {
+	return vs.TypeIs[*ast.CallExpr](e) && vs.As[*ast.CallExpr](e) != nil && len(vs.As[*ast.CallExpr](e).Args) == 0 &&
+		vs.TypeIs[*ast.SelectorExpr](vs.As[*ast.CallExpr](e).Fun) && vs.As[*ast.SelectorExpr](vs.As[*ast.CallExpr](e).Fun) != nil &&
+		isIdentNamed(vs.As[*ast.SelectorExpr](vs.As[*ast.CallExpr](e).Fun).X, recv) &&
+		vs.As[*ast.SelectorExpr](vs.As[*ast.CallExpr](e).Fun).Sel != nil &&
+		vs.As[*ast.SelectorExpr](vs.As[*ast.CallExpr](e).Fun).Sel.Name == method
+}
+
+// isReceiveFrom: the expression `<-ch`.
+func isReceiveFrom(e ast.Expr, ch ast.Expr) bool {
+	return vs.TypeIs[*ast.UnaryExpr](e) && vs.As[*ast.UnaryExpr](e) != nil &&
+		vs.As[*ast.UnaryExpr](e).Op == token.ARROW && vs.As[*ast.UnaryExpr](e).X == ch
+}
+
+// isReceiveFromCtxDone: the expression `<-ctx.Done()`.
+func isReceiveFromCtxDone(e ast.Expr) bool {
+	return vs.TypeIs[*ast.UnaryExpr](e) && vs.As[*ast.UnaryExpr](e) != nil &&
+		vs.As[*ast.UnaryExpr](e).Op == token.ARROW && isSelectorCall(vs.As[*ast.UnaryExpr](e).X, "ctx", "Done")
+}
+
+// isPlainWait: the statement `<-ch` (blocks until ch is closed; cannot be interrupted).
+func isPlainWait(s ast.Stmt, ch ast.Expr) bool {
+	return vs.TypeIs[*ast.ExprStmt](s) && vs.As[*ast.ExprStmt](s) != nil && isReceiveFrom(vs.As[*ast.ExprStmt](s).X, ch)
+}
+
+// isCancellableWait: `select { case <-ch: case <-ctx.Done(): body }`.
+func isCancellableWait(s ast.Stmt, ch ast.Expr) bool {
+	return vs.TypeIs[*ast.SelectStmt](s) && vs.As[*ast.SelectStmt](s) != nil && vs.As[*ast.SelectStmt](s).Body != nil &&
+		len(vs.As[*ast.SelectStmt](s).Body.List) == 2 &&
+		isCaseReceiving(vs.As[*ast.SelectStmt](s).Body.List[0], ch) && len(vs.As[*ast.CaseClause](vs.As[*ast.SelectStmt](s).Body.List[0]).Body) == 0 &&
+		isCaseCtxDone(vs.As[*ast.SelectStmt](s).Body.List[1])
+}
+
+func isCaseReceiving(c ast.Stmt, ch ast.Expr) bool {
+	return vs.TypeIs[*ast.CaseClause](c) && vs.As[*ast.CaseClause](c) != nil && len(vs.As[*ast.CaseClause](c).List) == 1 &&
+		isReceiveFrom(vs.As[*ast.CaseClause](c).List[0], ch)
+}
+
+func isCaseCtxDone(c ast.Stmt) bool {
+	return vs.TypeIs[*ast.CaseClause](c) && vs.As[*ast.CaseClause](c) != nil && len(vs.As[*ast.CaseClause](c).List) == 1 &&
+		isReceiveFromCtxDone(vs.As[*ast.CaseClause](c).List[0])
+}
+
+// cancelBranchBody: the statements run when the context is cancelled while waiting.
+func cancelBranchBody(s ast.Stmt) []ast.Stmt {
+	return vs.As[*ast.CaseClause](vs.As[*ast.SelectStmt](s).Body.List[1]).Body
+}
+
+//kvc:contract (*InjectorProviderCallStmt).buildWaitStatement
+func contract_buildWaitStatement(stmt *InjectorProviderCallStmt, hasCtx bool, channel ast.Expr, returnErrStmts func(ast.Expr) []ast.Stmt) (result ast.Stmt) {
+	// the wait can be abandoned on cancellation exactly when a context is in scope AND the enclosing
+	// function has somewhere to return an error to
+	vs.Ensures("plain_wait_without_ctx_or_continuation", vs.Implies(!hasCtx || returnErrStmts == nil, isPlainWait(result, channel)))
+	vs.Ensures("cancellable_wait_otherwise", vs.Implies(hasCtx && returnErrStmts != nil, isCancellableWait(result, channel)))
+	// on cancellation the enclosing function returns through its error continuation with the context's error
+	vs.Ensures("cancel_branch_is_continuation_of_ctx_err", vs.Implies(hasCtx && returnErrStmts != nil,
+		vs.ExistsPtr(func(e *ast.CallExpr) bool {
+			return isSelectorCall(ast.Expr(e), "ctx", "Err") && vs.SameSlice(cancelBranchBody(result), returnErrStmts(ast.Expr(e)))
+		})))
+	vs.Allocates()
+	return
+}
+
+// injectorHasCtx: a context.Context is among the injector's parameters.
+func injectorHasCtx(injector *Injector) bool {
+	return vs.Exists(len(injector.Args), func(i int) bool { return isContextType(injector.Args[i].Type) })
+}
+
+func injectorArgsNonNil(injector *Injector) bool {
+	return injector != nil && vs.Forall(len(injector.Args), func(i int) bool { return injector.Args[i] != nil })
+}
+
+// isWaitOn: a wait on ch of the flavour chosen by (cancellable).
+func isWaitOn(s ast.Stmt, ch ast.Expr, cancellable bool) bool {
+	return (cancellable && isCancellableWait(s, ch)) || (!cancellable && isPlainWait(s, ch))
+}
+
+// isChanRange: `for _, ch := range []<dir>chan struct{}{elts...} { body }`.
+func isChanRange(s ast.Stmt, elts []ast.Expr, dir ast.ChanDir) bool {
+	return vs.TypeIs[*ast.RangeStmt](s) && vs.As[*ast.RangeStmt](s) != nil &&
+		vs.As[*ast.RangeStmt](s).Tok == token.DEFINE && isIdentNamed(vs.As[*ast.RangeStmt](s).Key, "_") && isIdentNamed(vs.As[*ast.RangeStmt](s).Value, "ch") &&
+		vs.TypeIs[*ast.CompositeLit](vs.As[*ast.RangeStmt](s).X) && vs.As[*ast.CompositeLit](vs.As[*ast.RangeStmt](s).X) != nil &&
+		vs.SameSlice(vs.As[*ast.CompositeLit](vs.As[*ast.RangeStmt](s).X).Elts, elts) &&
+		isChanSliceType(vs.As[*ast.CompositeLit](vs.As[*ast.RangeStmt](s).X).Type, dir) &&
+		vs.As[*ast.RangeStmt](s).Body != nil && len(vs.As[*ast.RangeStmt](s).Body.List) == 1
+}
+
+func isChanSliceType(t ast.Expr, dir ast.ChanDir) bool {
+	return vs.TypeIs[*ast.ArrayType](t) && vs.As[*ast.ArrayType](t) != nil && vs.As[*ast.ArrayType](t).Len == nil &&
+		vs.TypeIs[*ast.ChanType](vs.As[*ast.ArrayType](t).Elt) && vs.As[*ast.ChanType](vs.As[*ast.ArrayType](t).Elt) != nil &&
+		vs.As[*ast.ChanType](vs.As[*ast.ArrayType](t).Elt).Dir == dir
+}
+
+func rangeBodyStmt(s ast.Stmt) ast.Stmt { return vs.As[*ast.RangeStmt](s).Body.List[0] }
+
+// isWaitAll: a statement that returns only after every channel of chans has been closed
+// (or, when cancellable, leaves through the error continuation).
+func isWaitAll(s ast.Stmt, chans []ast.Expr, cancellable bool) bool {
+	return (len(chans) == 1 && isWaitOn(s, chans[0], cancellable)) ||
+		(len(chans) != 1 && isChanRange(s, chans, ast.RECV) &&
+			vs.ExistsPtr(func(id *ast.Ident) bool {
+				return id.Name == "ch" && isWaitOn(rangeBodyStmt(s), ast.Expr(id), cancellable)
+			}))
+}
+
+//kvc:contract (*InjectorProviderCallStmt).channelsWait
+func contract_channelsWait(stmt *InjectorProviderCallStmt, channels []ast.Expr, injector *Injector, returnErrStmts func(ast.Expr) []ast.Stmt) (result ast.Stmt) {
+	vs.Requires(injectorArgsNonNil(injector) && len(channels) >= 1)
+	// C07/C08: the flavour of every wait is decided by "the injector has a context parameter" (any position
+	// of its argument list) and "the enclosing function can return an error"
+	vs.Ensures("waits_on_all_channels", isWaitAll(result, channels, injectorHasCtx(injector) && returnErrStmts != nil))
+	vs.Allocates()
+	return
+}
+
+//kvc:loop (*InjectorProviderCallStmt).channelsWait "for _, arg := range injector.Args"
+func inv_channelsWait_ctx(injector *Injector, hasCtx bool, kvcIdx int) {
+	vs.Invariant("no_ctx_so_far", !hasCtx && vs.Forall(kvcIdx, func(i int) bool { return !isContextType(injector.Args[i].Type) }))
+}
+
+// isCloseOf: the statement `close(ch)`.
+func isCloseOf(s ast.Stmt, ch ast.Expr) bool {
+	return vs.TypeIs[*ast.ExprStmt](s) && vs.As[*ast.ExprStmt](s) != nil &&
+		vs.TypeIs[*ast.CallExpr](vs.As[*ast.ExprStmt](s).X) && vs.As[*ast.CallExpr](vs.As[*ast.ExprStmt](s).X) != nil &&
+		isIdentNamed(vs.As[*ast.CallExpr](vs.As[*ast.ExprStmt](s).X).Fun, "close") &&
+		len(vs.As[*ast.CallExpr](vs.As[*ast.ExprStmt](s).X).Args) == 1 && vs.As[*ast.CallExpr](vs.As[*ast.ExprStmt](s).X).Args[0] == ch
+}
+
+// isCloseAll: a statement that closes every channel of chans exactly once.
+func isCloseAll(s ast.Stmt, chans []ast.Expr) bool {
+	return (len(chans) == 1 && isCloseOf(s, chans[0])) ||
+		(len(chans) != 1 && isChanRange(s, chans, ast.SEND) &&
+			vs.ExistsPtr(func(id *ast.Ident) bool { return id.Name == "ch" && isCloseOf(rangeBodyStmt(s), ast.Expr(id)) }))
+}
+
+//kvc:contract (*InjectorProviderCallStmt).channelsClose
+func contract_channelsClose(stmt *InjectorProviderCallStmt, channels []ast.Expr) (result ast.Stmt) {
+	vs.Requires(len(channels) >= 1)
+	vs.Ensures("closes_all_channels", isCloseAll(result, channels))
+	vs.Allocates()
+	return
 }
